@@ -37,6 +37,83 @@ def only_called_from(ck: Check, fn: str, allowed: Set[str], depth: int) -> bool:
     return bool(callers) and all(c in allowed or only_called_from(ck, c, allowed, depth + 1) for c in callers)
 
 
+GATE_MODULES = ("skepticoin.consensus", "skepticoin.datatypes", "skepticoin.signing", "skepticoin.serialization", "skepticoin.networking.messages",
+                "skepticoin.coinstate", "skepticoin.wallet", "skepticoin.balances", "skepticoin.merkletree", "skepticoin.pow")
+
+
+def _canon_lv(t: Any) -> Any:
+    if isinstance(t, tuple):
+        if t and t[0] == "lv":
+            return ("lv", "_", 0)
+        if t and t[0] == "new" and len(t) == 4:
+            return ("new", t[1], 0, ())          # identities are numbered in creation order: not part of the condition
+        return tuple(_canon_lv(x) for x in t)
+    return t
+
+
+def rejection_sites(ck: Check, q: str) -> List[str]:
+    """the ways function q itself refuses (helpers extracted later count as part of it): its raise statements as `Class: message text`,
+    and the validators it hands its input to as `-> validator`"""
+    from ..engine.walker import exc_class
+    s = ck.summ(q, 0)
+    out = set()
+    for e in s.events:
+        if e.chain:
+            continue
+        if e.kind == "raise":
+            t = e.term
+            msg = ""
+            if t[0] == "call" and t[2]:
+                a0 = t[2][0]
+                if a0[0] == "c":
+                    msg = str(a0[1])
+                elif a0[0] == "call" and a0[1] == ("g", "builtin:fmt") and a0[2] and a0[2][0][0] == "c":
+                    msg = str(a0[2][0][1])
+                elif a0[0] == "call" and a0[1] == ("g", "builtin:fstr") and a0[2] and a0[2][0][0] == "c":
+                    msg = str(a0[2][0][1])
+                elif a0[0] == "call" and a0[1][0] == "a" and a0[1][2] == "format" and a0[1][1][0] == "c":
+                    msg = str(a0[1][1][1])
+            # the literal text up to the first substituted value identifies the message however it is formatted
+            for mark in ("%", "{"):
+                if mark in msg:
+                    msg = msg[:msg.index(mark)]
+            out.add("%s: %s" % (exc_class(e).split(".")[-1], msg.strip()[:24].strip()))
+        elif e.kind == "call":
+            for tg in e.targets:
+                if tg.startswith("skepticoin.consensus.validate_") or tg.endswith(".validate") and tg.startswith("skepticoin.signing."):
+                    out.add("-> " + tg.replace("skepticoin.", ""))
+    return sorted(out)
+
+
+def is_gate(fi: FuncInfo) -> bool:
+    return fi.module.name in GATE_MODULES or (fi.module.name == "skepticoin.networking.remote_peer"
+                                              and (".handle_" in fi.qualname or ".MessageReceiver." in fi.qualname))
+
+
+def rule_no_new_rejections(ck: Check, rule: str, prefixes: Sequence[str], what: str) -> None:
+    """accepting paths stay open: a function that validates, decodes or handles input has no raise statement and no call of a validator
+    beyond those recorded for it (raise statements are identified by exception class and message text, so moving, merging or re-formatting
+    them changes nothing). The rejections that must be there are separate obligations; this one says that nothing valid is newly refused."""
+    import json
+    import os
+    from ..engine.report import VERIF_ROOT
+    ref = json.load(open(os.path.join(VERIF_ROOT, "reference", "rejections.json")))
+    n = 0
+    for q, want in sorted(ref.items()):
+        if not any(q.startswith(p_) for p_ in prefixes) or q not in ck.repo.functions:
+            continue
+        n += 1
+        got = rejection_sites(ck, q)
+        new = [a for a in got if a not in want]
+        construct = "%s has no new way to refuse its input" % short(q)
+        if new:
+            ck.violated(rule, construct, "%s — new: %s" % (what, "; ".join(x[:120] for x in new[:4])), ck.repo.functions[q].loc)
+        else:
+            ck.ok(rule, construct, "%d recorded" % len(want), ck.repo.functions[q].loc)
+    if n == 0:
+        ck.unknown(rule, "rejection inventory", "no recorded function matches %s" % list(prefixes))
+
+
 def functions_mentioning(ck: Check, needle: str) -> List[FuncInfo]:
     """recorded (non-transparent) functions whose source mentions `needle`, directly or through the name of a helper that was
     introduced after the rule tables were written (such helpers are analysed as part of their callers, never on their own)."""
